@@ -80,7 +80,7 @@ func newTerminal(f Frontend, backend Backend, mode TextReadMode) *terminal {
 		return nil
 	}
 
-	return &terminal{
+	t := &terminal{
 		frontend:     f,
 		mainScreen:   newScreen(f),
 		altScreen:    newScreen(f),
@@ -90,6 +90,9 @@ func newTerminal(f Frontend, backend Backend, mode TextReadMode) *terminal {
 		viewStrings:  make([]string, viewStringCount),
 		textReadMode: mode,
 	}
+	// only the main buffer has a scrollback (see Frontend.ScrollLines)
+	t.mainScreen.setKeepsScrollback(true)
+	return t
 }
 
 func (t *terminal) SetFrontend(f Frontend) {
